@@ -2,6 +2,7 @@ package vh
 
 import (
 	"fmt"
+	"math"
 	"os"
 	"strings"
 	"sync/atomic"
@@ -169,7 +170,15 @@ func prefixKey(id string, v *Violation) *Violation {
 // genCheckCfg generates the flag settings shared by the Check-based properties.
 func genCheckCfg(dt *drv.T, name string, maxChecks int) CheckCfg {
 	cfg := CheckCfg{Name: name}
-	cfg.Seed = drv.Uint64Range(1, 1<<63).Draw(dt, "seed")
+	switch pick(dt, "seedhow", "any", "any", "small", "top") {
+	case "small":
+		cfg.Seed = drv.Uint64Range(1, 1000).Draw(dt, "seed")
+	case "top":
+		// around 2^63 and up to just below 2^64 (far enough from it for the per-case offsets not to wrap to 0)
+		cfg.Seed = pick(dt, "seedbase", uint64(1)<<63, 1<<63-3000, 1<<63+12345, math.MaxUint64-1<<24, 3<<62) + drv.Uint64Range(0, 5000).Draw(dt, "seedoff")
+	default:
+		cfg.Seed = drv.Uint64Range(1, math.MaxUint64-1<<24).Draw(dt, "seed")
+	}
 	cfg.Checks = drv.IntRange(1, maxChecks).Draw(dt, "checks")
 	cfg.Steps = pick(dt, "steps", 1, 3, 10, 30, 60)
 	cfg.ShrinkNS = -1
